@@ -7,7 +7,7 @@ SPECS = [
     ("cvrptw", "CVRPTW"), ("svrp", "SVRP"), ("pctsp", "PCTSP"), ("pctsp", "PCTSPReq"), ("spctsp", "SPCTSP"), ("sdvrp", "SDVRP"),
     ("mtvrp", "MTVRP"), ("fjsp", "FJSP"), ("fjsp", "JSSP"),
     ("mtsp", "MTSP"), ("mdcpdp", "MDCPDP"), ("mdcpdp", "MDCPDPGen"), ("mdcpdp", "MDCPDPHet"),
-    ("smtwtp", "SMTWTP"), ("ffsp", "FFSP"),
+    ("smtwtp", "SMTWTP"), ("ffsp", "FFSP"), ("ffsp", "FFSPNoFlatten"),
     ("flp", "FLP"), ("flp", "FLPFull"), ("mcp", "MCP"), ("mcp", "MCPFull"), ("dpp", "DPP"), ("dpp", "MDPP"),
 ]
 
